@@ -15,6 +15,31 @@ ALLOWED_WRITES = {
 
 
 def run(repo, res):
+    res.rule("R29.6", "_reorder_nodes takes its 'no metadata' shortcut only when the existing column *and* the new unsplit_node_id rows are empty: the emptiness test reads the concatenation that includes extra_md_dict")
+    rn_ = repo.fn("util", "_reorder_nodes")
+    from ..base import Defs as _Defs
+
+    d_ = _Defs(rn_)
+    tests_ = [n_ for n_ in own_nodes(rn_) if isinstance(n_, ast.If) and isinstance(n_.test, ast.Compare) and U(n_.test).replace(" ", "").startswith("len(") and U(n_.test).replace(" ", "").endswith("==0")]
+    if not tests_:
+        raise AnalysisError("R29.6: the empty-metadata shortcut of _reorder_nodes was not found")
+    for t_ in tests_:
+        arg_ = t_.test.left.args[0]
+        # transitive data dependence of the tested value on definitions that precede the test
+        seen_, todo_ = set(), [x.id for x in ast.walk(arg_) if isinstance(x, ast.Name)]
+        while todo_:
+            nm_ = todo_.pop()
+            if nm_ in seen_:
+                continue
+            seen_.add(nm_)
+            for v in d_.values(nm_):
+                node_ = v if isinstance(v, ast.AST) else (v[1] if isinstance(v, tuple) and len(v) > 1 and isinstance(v[1], ast.AST) else None)
+                if node_ is None or getattr(node_, "lineno", 0) >= t_.lineno:
+                    continue
+                todo_.extend(x.id for x in ast.walk(node_) if isinstance(x, ast.Name))
+        texts_ = [U(d_.inline(arg_))]
+        ok_ = "extra_md_dict" in seen_
+        res.require(ok_, "R29.6", "util._reorder_nodes empty-metadata shortcut accounts for the new rows", f"`{U(t_.test)}` tests `{texts_[0][:80]}`, which does not include the rows of extra_md_dict: with an empty existing column every unsplit_node_id is silently dropped", repo.loc(rn_, t_), texts_[0][:80])
     from . import flagsrule
 
     res.rule("R29.5", "samples are never split: sample status is decided by the NODE_IS_SAMPLE bit or ts.samples(), never by comparing the whole flags word (samples may carry further bits, e.g. tsinfer's historical-sample bit)")
@@ -96,7 +121,8 @@ def run(repo, res):
     e2_rule(repo, res, "R29.4", lambda caller, callee: caller is f, min_sites=2)
 
 
-VARIANTS = [dict(name="flags-equality-in-split", mod="util", expect="fire", rule="R29.5", old="    node_is_sample = np.bitwise_and(ts.nodes_flags, tskit.NODE_IS_SAMPLE).astype(bool)", new="    node_is_sample = ts.nodes_flags == tskit.NODE_IS_SAMPLE")] + [
+VARIANTS = [
+    dict(name="empty-shortcut-ignores-new-rows", mod="util", expect="fire", rule="R29.6", old="    md = np.concatenate(data)\n    if len(md) == 0:  # Common edge case: no metadata", new="    md = np.concatenate(data)\n    if len(node_table.metadata) == 0:  # Common edge case: no metadata"),dict(name="flags-equality-in-split", mod="util", expect="fire", rule="R29.5", old="    node_is_sample = np.bitwise_and(ts.nodes_flags, tskit.NODE_IS_SAMPLE).astype(bool)", new="    node_is_sample = ts.nodes_flags == tskit.NODE_IS_SAMPLE")] + [
     dict(name="individual-column-dropped", mod="util", expect="fire", rule="R29.1", old="        individual=node_table.individual[order],\n", new=""),
     dict(name="population-not-permuted", mod="util", expect="fire", rule="R29.1", old="        population=node_table.population[order],", new="        population=node_table.population[: len(order)],"),
     dict(name="flag-on-all-copies", mod="util", expect="fire", rule="R29.2", old="    flags[split_nodes] |= tsdate.NODE_SPLIT_BY_PREPROCESS", new="    flags[nodes_order] |= tsdate.NODE_SPLIT_BY_PREPROCESS"),
